@@ -353,6 +353,10 @@ void QXmppOutgoingClient::_q_socketDisconnected()
     if (d->nextAddressState == QXmppOutgoingClientPrivate::TryNext) {
         d->connectToNextAddress();
     } else if (d->redirect) {
+        // an established session ends with the connection it was established on
+        if (d->sessionStarted) {
+            closeSession();
+        }
         d->connectToHost({ ServerAddress::Tcp, d->redirect->host, d->redirect->port });
         d->redirect.reset();
     } else {
